@@ -136,6 +136,32 @@ func (w *SimWriter) Write(p []byte) (int, error) {
 	return n, err
 }
 
+// ReadFrom: net/http's response writer implements io.ReaderFrom (io.Copy uses it); here it is a loop of
+// Write calls of up to 512 bytes, so every fault position exists on this path too.
+func (w *SimWriter) ReadFrom(r io.Reader) (int64, error) {
+	buf := make([]byte, 512)
+	var total int64
+	for {
+		n, rerr := r.Read(buf)
+		if n > 0 {
+			m, werr := w.Write(buf[:n])
+			total += int64(m)
+			if werr != nil {
+				return total, werr
+			}
+			if m < n {
+				return total, io.ErrShortWrite
+			}
+		}
+		if rerr == io.EOF {
+			return total, nil
+		}
+		if rerr != nil {
+			return total, rerr
+		}
+	}
+}
+
 // WriteString: net/http's response writer implements io.StringWriter, and so does this one; code that
 // asserts for it (io.WriteString does) reaches the same write path.
 func (w *SimWriter) WriteString(s string) (int, error) {
